@@ -38,6 +38,8 @@ pub struct Net {
     pub gate_finalswitch: AtomicU8,
     pub hold_scan: AtomicBool,
     pub hold_plug: AtomicBool,
+    // nodes whose plug command is let go although hold_plug is still set (their migration ended)
+    pub unplugged: Mutex<Vec<u64>>,
     // (node id, command name, key) of every command that reached a fake Redis node over a data connection
     pub log: Mutex<Vec<(u64, String, Vec<u8>)>>,
 }
@@ -51,6 +53,7 @@ impl Net {
             gate_finalswitch: AtomicU8::new(GATE_PASS),
             hold_scan: AtomicBool::new(false),
             hold_plug: AtomicBool::new(false),
+            unplugged: Mutex::new(vec![]),
             log: Mutex::new(vec![]),
         })
     }
@@ -229,7 +232,8 @@ impl ConnFactory for NetConnFactory {
                 let key = cmd.get(1).cloned().unwrap_or_default();
                 net.log.lock().push((id_of(&addr_s), name, key.clone()));
                 if key.starts_with(b"plug") {
-                    while net.hold_plug.load(Ordering::SeqCst) {
+                    let node = id_of(&addr_s);
+                    while net.hold_plug.load(Ordering::SeqCst) && !net.unplugged.lock().contains(&node) {
                         tokio::time::sleep(Duration::from_millis(2)).await;
                     }
                 }
